@@ -288,6 +288,46 @@ theorem kp_line_count (opts : Opts R) (batch : Nat) (h : Dir → Coor R → Coor
       rw [ha, ih]
   exact e files
 
+/-- the residual kp prints for a tuple with `--roundtrip`: there and back, minus the tuple -/
+def residual (opts : Opts R) (h : Dir → Coor R → Coor R) (x : Coor R) : Coor R :=
+  let dir : Dir := if opts.inverse then .inv else .fwd
+  let y := h dir.flip (h dir x)
+  ⟨y.c0 - x.c0, y.c1 - x.c1, y.c2 - x.c2, y.c3 - x.c3⟩
+
+/-- what `transform` prints for a batch with `--roundtrip` when the library works tuple by tuple (and counts every
+tuple): the line of each tuple's own residual -/
+theorem transform_roundtrip_lines (opts : Opts R) (h : Dir → Coor R → Coor R) (fmt : Nat → R → String)
+    (dec dim : Nat) (hd : opts.decimals = some dec) (hD : opts.dimension = some dim) (hr : opts.roundtrip = true)
+    (d : Nat) (xs : List (Coor R)) :
+    transform opts (fun dir data => (data.map (h dir), data.length)) fmt d xs =
+      some (xs.map fun x => printLine fmt dec dim (residual opts h x)) := by
+  cases xs with
+  | nil => simp [transform]
+  | cons x rest =>
+    have hz : ∀ (l : List (Coor R)) (g : Coor R → Coor R),
+        List.zipWith (fun (a b : Coor R) => (⟨a.c0 - b.c0, a.c1 - b.c1, a.c2 - b.c2, a.c3 - b.c3⟩ : Coor R)) (l.map g) l =
+          l.map fun b => (⟨(g b).c0 - b.c0, (g b).c1 - b.c1, (g b).c2 - b.c2, (g b).c3 - b.c3⟩ : Coor R) := by
+      intro l g
+      induction l with
+      | nil => rfl
+      | cons a l ih => simp only [List.map_cons, List.zipWith_cons_cons, ih]
+    simp only [transform, hd, hD, hr, List.isEmpty_cons, Bool.false_eq_true, if_false, if_true, List.length_map,
+      bne_self_eq_false, List.map_map, Option.getD_some]
+    rw [hz (x :: rest) (h (if opts.inverse = true then Dir.inv else Dir.fwd).flip ∘ h (if opts.inverse = true then Dir.inv else Dir.fwd))]
+    simp [List.map_map, Function.comp_def, printLine, residual]
+
+/-- **`--roundtrip` prints forward-inverse residuals, one line per coordinate line, in input order**, whatever the
+batch size and the spread of the lines over files -/
+theorem kp_roundtrip_one_line_per_coordinate_line (opts : Opts R) (batch : Nat) (h : Dir → Coor R → Coor R) (fmt : Nat → R → String)
+    (dec dim : Nat) (hd : opts.decimals = some dec) (hD : opts.dimension = some dim) (hr : opts.roundtrip = true)
+    (files : List (List Str)) :
+    run opts batch (transform opts (fun dir data => (data.map (h dir), data.length)) fmt) (files.map some) =
+      ((allTuples opts files).map fun x => printLine fmt dec dim (residual opts h x), true) := by
+  obtain ⟨out, h1, h2⟩ := kp_batch_independent opts batch _ (transform_batchable_roundtrip opts h fmt dec dim hd hD hr) files
+  rw [transform_roundtrip_lines opts h fmt dec dim hd hD hr] at h1
+  injection h1 with h1
+  rw [h2, h1]
+
 /-- the value a word of a coordinate line stands for -/
 def wordValue (e : Str) : R :=
   match Sexa.parse e with
